@@ -24,16 +24,16 @@ ENGINES = {
 }
 
 PROPS = {
-    'C01': dict(spec_mods=['SsoSpec.C01'], engines=['proxyflow']),
+    'C01': dict(spec_mods=['SsoSpec.C01'], engines=['proxyflow', 'sfwrap']),
     'C02': dict(spec_mods=['SsoSpec.C02'], engines=['aead']),
-    'C03': dict(spec_mods=['SsoSpec.C03'], engines=['forward']),
-    'C04': dict(spec_mods=['SsoSpec.C04'], engines=['proxyflow']),
+    'C03': dict(spec_mods=['SsoSpec.C03'], engines=['forward', 'proxyflow']),
+    'C04': dict(spec_mods=['SsoSpec.C04'], engines=['proxyflow', 'sfwrap']),
     'C05': dict(spec_mods=['SsoSpec.C05'], engines=['proxyflow']),
-    'C06': dict(spec_mods=['SsoSpec.C06'], engines=['proxyflow']),
+    'C06': dict(spec_mods=['SsoSpec.C06'], engines=['proxyflow', 'sfwrap']),
     'C07': dict(spec_mods=['SsoSpec.C07'], engines=['authflow']),
     'C08': dict(spec_mods=['SsoSpec.C08'], engines=['authflow']),
-    'C09': dict(spec_mods=['SsoSpec.C09'], engines=['authflow']),
-    'C10': dict(spec_mods=['SsoSpec.C10'], engines=['authflow']),
+    'C09': dict(spec_mods=['SsoSpec.C09'], engines=['authflow', 'sfwrap']),
+    'C10': dict(spec_mods=['SsoSpec.C10'], engines=['authflow', 'sfwrap']),
     'C11': dict(spec_mods=['SsoSpec.C11'], engines=['validators', 'proxyflow']),
     'C19': dict(spec_mods=['SsoSpec.C19'], engines=['authflow', 'proxyflow', 'sfwrap']),
     'C20': dict(spec_mods=['SsoSpec.C20'], engines=['htmlesc', 'authflow', 'proxyflow']),
@@ -59,14 +59,14 @@ AF_FLOOR = ['authflow:signin/code', 'authflow:signin/page', 'authflow:signin/err
             'authflow:redeem/tokens', 'authflow:redeem/error', 'authflow:gate/Redeem/401', 'authflow:gate/Refresh/401', 'authflow:gate/ValidateToken/401',
             'authflow:gate/GetProfile/401', 'authflow:callback/session', 'authflow:callback/error/500', 'authflow:callback/error/403', 'authflow:callback/error/400',
             'authflow:outside-service']
-FW_FLOOR = ['forward:authenticated', 'forward:skip-auth', 'forward:connection-nominates-tracked', 'forward:session-cookie-present', 'forward:rsa/verifies', 'forward:rsa/mismatch', 'forward:hmac/on']
+FW_FLOOR = ['forward:overlap/overlapped', 'forward:authenticated', 'forward:skip-auth', 'forward:connection-nominates-tracked', 'forward:session-cookie-present', 'forward:rsa/verifies', 'forward:rsa/mismatch', 'forward:hmac/on']
 FLOORS = {
-    'C03': FW_FLOOR, 'C12': FW_FLOOR, 'C07': AF_FLOOR, 'C08': AF_FLOOR, 'C09': AF_FLOOR, 'C10': AF_FLOOR, 'C19': AF_FLOOR + PF_FLOOR + ['sfwrap:auth/revoke/leader', 'sfwrap:auth/revoke/follower'], 'C20': ['htmlesc:escaped', 'htmlesc:verbatim', 'authflow:signin/page', 'authflow:signout/page', 'authflow:signout/revoke-failed', 'authflow:gate/SignIn/400', 'proxyflow:cb/errorParam'],
-    'C01': PF_FLOOR, 'C04': PF_FLOOR, 'C05': PF_FLOOR, 'C13': PF_FLOOR, 'C06': PF_FLOOR, 'C18': PF_FLOOR,
+    'C03': FW_FLOOR + PF_FLOOR, 'C12': FW_FLOOR, 'C07': AF_FLOOR, 'C08': AF_FLOOR, 'C09': AF_FLOOR + ['sfwrap:auth/validate/leader', 'sfwrap:auth/validate/follower'], 'C10': AF_FLOOR + ['sfwrap:auth/redeem/leader'], 'C19': AF_FLOOR + PF_FLOOR + ['sfwrap:auth/revoke/leader', 'sfwrap:auth/revoke/follower'], 'C20': ['htmlesc:escaped', 'htmlesc:verbatim', 'authflow:signin/page', 'authflow:signout/page', 'authflow:signout/revoke-failed', 'authflow:gate/SignIn/400', 'proxyflow:cb/errorParam'],
+    'C01': PF_FLOOR + ['sfwrap:proxy/validate/follower', 'sfwrap:proxy/redeem/leader'], 'C04': PF_FLOOR + ['sfwrap:proxy/validate/leader', 'sfwrap:proxy/validate/follower', 'sfwrap:proxy/refresh/follower'], 'C05': PF_FLOOR, 'C13': PF_FLOOR, 'C06': PF_FLOOR + ['sfwrap:proxy/redeem/leader'], 'C18': PF_FLOOR,
     'C14': ['config:loaded', 'config:loaded/skip-regex', 'config:error/missingService', 'config:error/missingFrom', 'config:error/missingTo',
             'config:error/badFromUrl', 'config:error/badFromRegex', 'config:error/unknownType', 'config:error/badSkipRegex',
             'config:error/badHmac', 'config:error/noAllowRule'],
-    'C02': ['aead:genuine/accepted', 'aead:genuine-again/accepted', 'aead:other-key/rejected', 'aead:bitflip/rejected', 'aead:truncate-string/rejected',
+    'C02': ['aead:repeat/many', 'aead:genuine/accepted', 'aead:genuine-again/accepted', 'aead:other-key/rejected', 'aead:bitflip/rejected', 'aead:truncate-string/rejected',
             'aead:truncate-bytes/rejected', 'aead:extend/rejected', 'aead:newline/rejected', 'aead:cr/rejected', 'aead:trailing-bits/rejected',
             'aead:swap-nonce-body/rejected', 'aead:nonce-only/rejected', 'aead:body-from-other-key/rejected', 'aead:nonce-from-other-seal/rejected',
             'aead:random-bytes/rejected', 'aead:random-string/rejected', 'aead:empty/rejected'],
